@@ -427,8 +427,8 @@ func init() {
 	// ------------------------------------------------------------------ C02
 	register("C02", func(c *engine.Ctx) {
 		c.Rule = "random structured schemas (tree fragment, plus formats) with schema-directed VALID documents (boundary values of every constraint, optional properties present or absent, null where allowed, nested objects and arrays), a third of the programs also generated with --min-sized-ints and bounds near the integer type limits; every document the reference calls valid must be accepted and every non-empty declared value must re-appear unchanged, at the same place, in json.Marshal of the decoded value. Near-duplicates: pairs of schema nodes whose Go type names collide (sibling properties, definitions, definition vs property, array items) and whose schemas differ in exactly one keyword (24 perturbations: format, type, each bound, required, enum members, items, default, nullable, annotation only, identical), both orders, documents valid for the one and for the other at both positions. The broad random stream (all features, mutated documents) additionally ties model and implementation. Distinct = distinct (stream, verdicts, document shape)."
-		c.Proofs([]string{"GJS.Props.C02", "GJS.Props.Whole", "GJS.Proofs.Mono", "GJS.Proofs.Stable"}, []string{
-			"GJS.Props.C02.certShape_accepts", "GJS.Props.C02.certified_exact_on_shape", "GJS.Props.C02.certFull_accepts", "GJS.Props.C02.certAll_accepts", "GJS.Props.C02.str_decode_passes", "GJS.Props.C02.arr_decode_passes", "GJS.Props.C02.decodeStruct_field", "GJS.Props.C02.num_decode_passes", "GJS.Props.C02.acc_map_iff",
+		c.Proofs([]string{"GJS.Props.C02", "GJS.Props.Whole", "GJS.Props.Exact", "GJS.Proofs.SpecMono", "GJS.Proofs.Mono", "GJS.Proofs.Stable"}, []string{
+			"GJS.Props.C02.certShape_accepts", "GJS.Props.C02.certified_exact_on_shape", "GJS.Props.C02.certFull_accepts", "GJS.Props.C02.certAll_accepts", "GJS.Props.C02.certSound", "GJS.Props.C02.certified_exact", "GJS.Spec.valid_mono", "GJS.Props.C02.valid_split", "GJS.Props.C02.num_check_iff", "GJS.Props.C02.str_check_iff", "GJS.Props.C02.arr_check_eq", "GJS.Props.C02.str_decode_passes", "GJS.Props.C02.arr_decode_passes", "GJS.Props.C02.decodeStruct_field", "GJS.Props.C02.num_decode_passes", "GJS.Props.C02.acc_map_iff",
 			"GJS.Proofs.decode_err_mono", "GJS.Proofs.decode_stable",
 			"GJS.Props.C02.prim_roundtrip", "GJS.Props.C02.validators_only_reject_on_constraints", "GJS.Props.C02.unmarshal_accept_stable",
 			"GJS.Props.C02.rejected_forever_not_accepted", "GJS.Proofs.decode_ok_mono", "GJS.Proofs.okMono",
@@ -633,6 +633,7 @@ func init() {
 		certCount(c, res, "shape")
 		certCount(c, res, "full")
 		certCount(c, res, "all")
+		certCount(c, res, "exact")
 		breaks(c, res, nil, fails > 0)
 		knownProgramFindings(c)
 	})
